@@ -465,6 +465,23 @@ func runCore(seed uint64, n int, out *Out) {
 			}
 			return markets[r.Intn(len(markets))]
 		}
+		// mkGrant saves a live authz grant granter→grantee and tells the model
+		mkGrant := func(granter, grantee, kind int, limit int64) {
+			var a authz.Authorization
+			if kind == 0 {
+				a = &housetypes.DepositAuthorization{SpendLimit: sdkmath.NewInt(limit)}
+			} else {
+				a = &housetypes.WithdrawAuthorization{WithdrawLimit: sdkmath.NewInt(limit)}
+			}
+			t := time.Unix(now+r.Range(0, 30), 0).UTC()
+			if a.ValidateBasic() != nil {
+				return
+			}
+			if err := e.App.AuthzKeeper.SaveGrant(e.Ctx, e.Accts[grantee], e.Accts[granter], a, &t); err == nil {
+				out.Op("GR %d %d %d %d %d", granter, grantee, kind, limit, t.Unix())
+				out.Count("op.grant.directed")
+			}
+		}
 		nOps := 20 + r.Intn(maxOps)
 		halted := false
 		for opi := 0; opi < nOps && !halted; opi++ {
@@ -648,6 +665,9 @@ func runCore(seed uint64, n int, out *Out) {
 						amount = r.Range(100, 1000)
 					}
 				}
+				if who != creator && r.Chance(75) {
+					mkGrant(who, creator, 0, amount+r.Pick([]int64{0, 0, -1, 1, 100, 1000}))
+				}
 				kyc, ign, appr, kid := genKyc(who)
 				key, valid := signKey()
 				claims := map[string]interface{}{"kyc_data": kyc}
@@ -656,6 +676,7 @@ func runCore(seed uint64, n int, out *Out) {
 				}
 				tk := e.Ticket(key, claims)
 				out.Op("HD %d %s %d %d %d", creator, tkFields(valid, ign, appr, kid), m.n, amount, pd)
+				hpre := captureHouse(e, who, creator, 0, m.uid, 0)
 				err, pan := e.Tx(func(ctx sdk.Context) error {
 					msg := &housetypes.MsgDeposit{Creator: e.Accts[creator].String(), MarketUID: m.uid, Amount: sdkmath.NewInt(amount), Ticket: tk}
 					if err := msg.ValidateBasic(); err != nil {
@@ -666,6 +687,9 @@ func runCore(seed uint64, n int, out *Out) {
 				})
 				out.Count("op.deposit")
 				finish(err, pan)
+				if err == nil {
+					depositMonitor(out, h, e, ix, hpre, creator, pd, sdkmath.NewInt(amount), m.uid)
+				}
 			case c < 52:
 				// ---- house withdraw
 				m := pickMarket()
@@ -715,6 +739,9 @@ func runCore(seed uint64, n int, out *Out) {
 						}
 					}
 				}
+				if pd != 0 && r.Chance(75) {
+					mkGrant(pd, creator, 1, amount+r.Pick([]int64{0, 0, -1, 1, 100, 1000}))
+				}
 				kyc, ign, appr, kid := genKyc(who)
 				key, valid := signKey()
 				claims := map[string]interface{}{"kyc_data": kyc}
@@ -723,6 +750,7 @@ func runCore(seed uint64, n int, out *Out) {
 				}
 				tk := e.Ticket(key, claims)
 				out.Op("HW %d %s %d %d %d %d %d", creator, tkFields(valid, ign, appr, kid), m.n, idx, mode, amount, pd)
+				wpre := captureHouse(e, pd, creator, 1, m.uid, idx)
 				err, pan := e.Tx(func(ctx sdk.Context) error {
 					msg := &housetypes.MsgWithdraw{Creator: e.Accts[creator].String(), MarketUID: m.uid, ParticipationIndex: idx,
 						Mode: housetypes.WithdrawalMode(mode), Amount: sdkmath.NewInt(amount), Ticket: tk}
@@ -734,6 +762,9 @@ func runCore(seed uint64, n int, out *Out) {
 				})
 				out.Count("op.withdraw")
 				finish(err, pan)
+				if err == nil {
+					withdrawMonitor(out, h, e, ix, wpre, creator, pd, m.uid, idx)
+				}
 			case c < 88:
 				// ---- wager
 				m := pickMarket()
@@ -799,11 +830,17 @@ func runCore(seed uint64, n int, out *Out) {
 				if err == nil && bn == nextBet {
 					nextBet++
 				}
+				if err == nil {
+					coreReset(h)
+					coreSeen.request[UID(clsBet, bn)] = sdkmath.NewInt(amount).Sub(bp.Constraints.Fee)
+				}
 				out.Count("op.wager")
 				finish(err, pan)
 			default:
 				// ---- end block, next block
 				out.Op("EB")
+				preD := dumpCore(e, ix)
+				preBal := userBalances(e)
 				halt, what := e.Block(func(ctx sdk.Context) {
 					bet.EndBlocker(ctx, *e.App.BetKeeper)
 					orderbook.EndBlocker(ctx, *e.App.OrderbookKeeper)
@@ -822,6 +859,9 @@ func runCore(seed uint64, n int, out *Out) {
 					out.Impl("%s", l)
 				}
 				coreMonitors(out, h, e, ix, d, markets, true)
+				if !halt {
+					endBlockMonitors(out, h, e, ix, preD, d, preBal, userBalances(e))
+				}
 				height++
 				now += r.Pick([]int64{1, 5, 5, 30, 200})
 				e.SetBlock(height, now)
